@@ -542,6 +542,10 @@ func main() {
 	if *procs > 0 {
 		runtime.GOMAXPROCS(*procs)
 	}
+	if *comp == "srcbatch" {
+		mainBatch(*seed, *n, *out, *replay)
+		return
+	}
 	g, ok := generators[*comp]
 	if !ok {
 		fmt.Fprintln(os.Stderr, "unknown component", *comp)
@@ -576,5 +580,59 @@ func main() {
 		cfg, ops := g(r, o)
 		line, impl := runCase(cfg, ops)
 		o.Case(line, impl, nontrivial(line))
+	}
+}
+
+func batchCase(k int, ops []string) (line, impl string) {
+	trace, verdict := runBatch(k, ops)
+	return fmt.Sprintf("k=%d ; %s ; %s", k, strings.Join(ops, " "), trace), verdict
+}
+
+func mainBatch(seed uint64, n int, out, replay string) {
+	o := gen.NewOut(out, "srcbatch")
+	defer o.Close()
+	nt := func(l string) bool { return strings.Contains(l, "FS") && strings.Contains(l, " C:") && strings.Contains(l, " S") }
+	if replay != "" {
+		f, err := os.Open(replay)
+		if err != nil {
+			panic(err)
+		}
+		sc := bufio.NewScanner(f)
+		sc.Buffer(make([]byte, 1<<20), 1<<26)
+		for sc.Scan() {
+			l := strings.TrimSpace(sc.Text())
+			if l == "" || strings.HasPrefix(l, "#") {
+				continue
+			}
+			parts := strings.SplitN(l, ";", 3)
+			k := 2
+			for _, f := range strings.Fields(parts[0]) {
+				if strings.HasPrefix(f, "k=") {
+					k, _ = strconv.Atoi(f[2:])
+				}
+			}
+			if len(parts) < 2 || k < 1 || k > 8 {
+				o.Case(l, "bad-op", false)
+				continue
+			}
+			// a witness needs the failing connector to be iterated first: a few attempts get past the map order
+			rep := 1
+			for _, f := range strings.Fields(parts[0]) {
+				if strings.HasPrefix(f, "rep=") {
+					rep, _ = strconv.Atoi(f[4:])
+				}
+			}
+			for i := 0; i < rep; i++ {
+				line, impl := batchCase(k, strings.Fields(parts[1]))
+				o.Case(line, impl, nt(line))
+			}
+		}
+		return
+	}
+	r := gen.New(seed)
+	for i := 0; i < n; i++ {
+		k, ops := genBatch(r, o)
+		line, impl := batchCase(k, ops)
+		o.Case(line, impl, nt(line))
 	}
 }
